@@ -25,7 +25,8 @@ const Rule = "cases = (implementation, n, op sequence) drawn from VERIF_SEED, ev
 	"last, middle and threshold elements and on invalid ones; and (fam=big, header solo=1: one implementation per case, " +
 	"because a history that is linear for one is quadratic for another) n = 65535, 65536, 65537, 70001 with the chain " +
 	"sweeps and pairing rounds for quick-union / weighted and unions touching the last, first and middle elements for " +
-	"quick-find, some under GOMAXPROCS 3 and 7 (header procs=k); oracle = breadth-first reachability over the valid " +
+	"quick-find, some under GOMAXPROCS 3 and 7 (header procs=k); under run.Huge() (thorough tier, witness search, enlarged budget) also n = 2^20 and 2^20+1 " +
+	"(fam=huge, oracle only: oracle_only_cases); oracle = breadth-first reachability over the valid " +
 	"union pairs (for n > 64 cached as explicit class lists that are re-validated by a full breadth-first labelling at " +
 	"every Count and at the end of the case); non-trivial = the history merged two classes that both had >= 2 elements, or repeated a union of two " +
 	"distinct already connected elements, or passed an invalid argument after at least one merge; " +
@@ -180,7 +181,11 @@ func size(set []bool) int {
 func Exec(c hx.Case) hx.Result {
 	var mu sync.Mutex
 	res := &hx.Result{BadOp: -1}
-	finished := hx.WithTimeout(watchdog, func() { execCase(c, res, &mu) })
+	limit := watchdog
+	if hx.HeaderGet(c.Header, "fam") == "huge" { // 2^20 elements, a million operations
+		limit = 12 * watchdog
+	}
+	finished := hx.WithTimeout(limit, func() { execCase(c, res, &mu) })
 	mu.Lock()
 	defer mu.Unlock()
 	if finished {
@@ -192,7 +197,7 @@ func Exec(c hx.Case) hx.Result {
 	snap.Outs = append(snap.Outs, "hang")
 	if snap.BadOp < 0 {
 		snap.BadOp = i
-		snap.What = fmt.Sprintf("%s did not return within %v", c.Ops[i], watchdog)
+		snap.What = fmt.Sprintf("%s did not return within %v", c.Ops[i], limit)
 	}
 	return snap
 }
@@ -736,6 +741,22 @@ func sizeFamily(run *hx.Run) {
 	}
 }
 
+// hugeFamily: 2^20 elements (run.Huge(): thorough tier, witness search, enlarged budget), one implementation per case,
+// judged by the oracle only.
+func hugeFamily(run *hx.Run) {
+	n := 1 << 20
+	for _, cfg := range [][2]string{{"quickunion", "sweep-up"}, {"quickunion", "sweep-down"}, {"weighted", "pairing"}, {"weighted", "sweep-up-swapped"},
+		{"quickfind", "last-elements"}} {
+		for _, m := range []int{n, n + 1} {
+			hdr := fmt.Sprintf("comp=%s n=%d fam=huge solo=1", cfg[0], m)
+			if cfg[0] == "quickfind" {
+				hdr += " procs=5"
+			}
+			run.Do(cfg[0], hx.Case{Header: hdr, Ops: sizeCase(cfg[1], m, true), NoModel: true}, Exec)
+		}
+	}
+}
+
 // all3fam: all3 with a family name in the header.
 func all3fam(run *hx.Run, n int, ops []string, fam string) {
 	for _, comp := range comps {
@@ -848,6 +869,9 @@ func Main(run *hx.Run) {
 	// the threshold family comes after the short random histories: a change that breaks everyday behaviour is then
 	// reported (and shrunk) on a short history, and the long ones only speak up for what needs their size
 	sizeFamily(run)
+	if run.Huge() {
+		hugeFamily(run)
+	}
 
 	if run.Thorough() {
 		// every sequence of <= 5 unions, followed by the queries that expose the whole state
